@@ -38,6 +38,51 @@ func isBeginEvalDefer(info *types.Info, d *ast.DeferStmt, begin *types.Func) boo
 	return originOf(Callee(info, inner)) == begin
 }
 
+// beginEvalClosedByDefer: `end := X.beginEval()` … `defer func() { …; end() }()`: the undo function is
+// kept in a local and invoked, unconditionally, by a deferred literal registered in the same block with
+// nothing between the two that can fail or panic.
+func beginEvalClosedByDefer(info *types.Info, fc *FCFG, dloc Loc, d *ast.DeferStmt, begin *types.Func, body *ast.BlockStmt) bool {
+	lit := deferredLit(d)
+	if lit == nil {
+		return false
+	}
+	for _, st := range lit.Body.List {
+		es, ok := st.(*ast.ExprStmt)
+		if !ok {
+			continue
+		}
+		ce, ok := es.X.(*ast.CallExpr)
+		if !ok || len(ce.Args) != 0 {
+			continue
+		}
+		def := soleDef(info, body, ce.Fun)
+		if def == nil {
+			continue
+		}
+		bc, ok := ast.Unparen(def).(*ast.CallExpr)
+		if !ok || originOf(Callee(info, bc)) != begin {
+			continue
+		}
+		// the assignment sits earlier in the same block, and nothing risky lies between
+		for j := 0; j < dloc.I; j++ {
+			as, ok := dloc.B.Nodes[j].(*ast.AssignStmt)
+			if !ok || len(as.Rhs) != 1 || ast.Unparen(as.Rhs[0]) != ast.Expr(bc) {
+				continue
+			}
+			clean := true
+			for k := j + 1; k < dloc.I; k++ {
+				if riskyCall(info, dloc.B.Nodes[k]) != nil {
+					clean = false
+				}
+			}
+			if clean {
+				return true
+			}
+		}
+	}
+	return false
+}
+
 func init() {
 	register(&Rule{ID: "ENTRY.begin-eval", Floor: 8,
 		Doc: "every function of package lisp that calls an internal evaluator funnel (eval, evalSExpr, funCall, macroCall, specialOpCall, call) from outside the funnels has `defer Runtime.beginEval()()` dominating the call: each top-level entry resets the step budget once and balances evalDepth on every exit",
@@ -84,7 +129,7 @@ func init() {
 								dom := false
 								for _, b2 := range fc.G.Blocks {
 									for j, m := range b2.Nodes {
-										if d, ok := m.(*ast.DeferStmt); ok && fc.Live(b2) && isBeginEvalDefer(info, d, begin) &&
+										if d, ok := m.(*ast.DeferStmt); ok && fc.Live(b2) && (isBeginEvalDefer(info, d, begin) || beginEvalClosedByDefer(info, fc, Loc{b2, j}, d, begin, bu.Body)) &&
 											fc.Dominates(Loc{b2, j}, Loc{b, i}) && !(b2 == b && j == i) {
 											dom = true
 										}
